@@ -550,6 +550,9 @@ func runPipe(p *PipePlan, ch *simrt.Choices, trace bool, adopt map[string][]byte
 		return mirrorChanLen() == 0
 	}
 	booted := func() bool {
+		if sim.Stalling() > 0 {
+			return false // a task is still inside an injected stall: it may be in the middle of its set-up
+		}
 		for _, pr := range allProtos {
 			if c.Enabled[pr] && sim.Net.Sock(c.port(pr)) == nil {
 				return false
@@ -583,6 +586,7 @@ func runPipe(p *PipePlan, ch *simrt.Choices, trace bool, adopt map[string][]byte
 			}
 			obs.Booted = true
 			obs.BootAt = sim.Now()
+			sim.BootDone = true
 		}
 		if obs.Signaled {
 			// waiting for the process to end on its own
@@ -748,7 +752,7 @@ func execPipe(t *testing.T, prop string, planJSON []byte, ch *simrt.Choices, tra
 			out.Probes["mirror-off-differential-runs"]++
 		}
 	}
-	if simrt.RaceBuild && prop == "C12" {
+	if simrt.RaceBuild {
 		checkRaceLog(prop, raceMark, out, pipeRaceScope)
 	}
 	return out
@@ -791,6 +795,8 @@ func fillRunOut(out *RunOut, p *PipePlan, obs *PipeObs) {
 	out.Probes["published"] += len(obs.Published)
 	out.Probes["received"] += len(obs.Recv)
 	out.Probes["raw-packets-mirrored"] += len(obs.Raw)
+	out.Probes["boot-barrier-releases"] = simrt.DbgRel
+	out.Probes["boot-barrier-acquires"] = simrt.DbgAcq
 	if obs.HarnessErr != "" {
 		out.Inconclusive = "harness: " + obs.HarnessErr
 	} else if obs.Stop == simrt.StopSteps || obs.Stop == simrt.StopDeadline {
